@@ -13,18 +13,42 @@ RUNNER = "C06.Corr.run"
 FINDING_CLASSES = {}
 RULE = ("complete products per group with the other groups at their baseline: correlation = Response InResponseTo(4) x "
         "SubjectConfirmation shapes (0-2 confirmations, each {no data, data without InResponseTo, outstanding id, other "
-        "outstanding id, unknown id}) x allow_unsolicited(2) x outstanding set {empty, one, many}; status = all table "
-        "codes + unknown + absent second level x 3 top-level codes; versions {2.0,1.1,2.1,3.0,1.0,2.00->(2,0)}; shape = "
-        "assertions{0,1,2} x AuthnStatements{0,1,2} x subject{absent,present}; plus seeded random mixtures across groups. "
+        "outstanding id, unknown id}) x allow_unsolicited(2) x outstanding set {empty, one, many}, completely for BOTH "
+        "browser bindings (HTTP-POST base64 to the POST endpoint, HTTP-Redirect deflate+base64 to the Redirect endpoint); a "
+        "reduced correlation product (InResponseTo(4) x 8 confirmation shapes x allow(2) x outstanding{None, many}) "
+        "for every other delivery: POST deflated, each browser binding x Destination {absent, the other binding's endpoint, "
+        "a foreign URL}, HTTP-Artifact x Destination(2), SOAP, PAOS (outstanding=None: the caller passes no dict); status = all table "
+        "codes + unknown + absent second level x 3 top-level codes x {POST, Redirect, SOAP}; versions "
+        "{2.0,1.1,2.1,3.0,1.0,0.9,10.0} x all 5 bindings; shape = assertions{0,1,2} x AuthnStatements{0,1,2} x "
+        "subject{absent,present} x {POST, Redirect, Artifact, SOAP}; plus seeded random mixtures across groups and deliveries. "
         "non-trivial = distinct abstract input differing from the all-valid baseline")
 TRUSTED = ["source-to-Gallina translator harness/py2coq.py + coq/theories/Base/Py.v (check_subject_confirmation_in_response_to is "
            "re-translated from the source text on every run; c06_source_check_sc_irt proves it equal to the model)",
            "xmlsec1 stand-in", "renderer harness/render.py", "translator harness/c06.py:regenerate_tables (STATUSCODE2EXCEPTION)"]
-ASSUMPTIONS = ["browser binding (HTTP-POST); signature, times, audience, recipient valid in every case",
-               "request ids and contexts are non-empty ASCII strings"]
+ASSUMPTIONS = ["signature, times, audience, recipient valid in every case; the message is encoded the way the named binding "
+               "prescribes (POST also deflated, which Entity.unravel accepts)",
+               "the SP registers one HTTP-POST and one HTTP-Redirect assertion consumer endpoint and none for other bindings",
+               "request ids and contexts are non-empty ASCII strings; InResponseTo values are NCNames (anything else, the empty string "
+               "included, is refused by the schema validation in front of the signature check: SignatureError)"]
 
 OUT_MANY = [("req-1", "/ctx1"), ("req-2", "/ctx2"), ("req-3", "/ctx3")]
-OUTS = {"empty": [], "one": [("req-1", "/ctx1")], "many": OUT_MANY}
+OUTS = {"none": None, "empty": [], "one": [("req-1", "/ctx1")], "many": OUT_MANY}   # none: the caller passes outstanding=None
+
+# deliveries: (binding the caller names, encoding of the message, Response/@Destination)
+BINDINGS = {"post": world.BINDING_HTTP_POST, "redirect": world.BINDING_HTTP_REDIRECT, "artifact": world.BINDING_HTTP_ARTIFACT,
+            "soap": world.BINDING_SOAP, "paos": world.BINDING_PAOS}
+COQ_BINDING = {"post": "Post", "redirect": "Redirect", "artifact": "Artifact", "soap": "Soap", "paos": "Paos"}
+DESTS = {"post": world.SP_ACS_POST, "redirect": world.SP_ACS_REDIRECT, "elsewhere": "https://other.example.org/acs/post",
+         "absent": None}
+COQ_DEST = {"post": "DPost", "redirect": "DRedirect", "elsewhere": "DElsewhere", "absent": "DAbsent"}
+ENCODERS = {"b64": render.b64, "deflate": render.deflate_b64, "soap": render.soap_envelope}
+FULL_DELIVERIES = [("post", "b64", "post"), ("redirect", "deflate", "redirect")]
+OTHER_DELIVERIES = [("post", "deflate", "post"), ("post", "b64", "absent"), ("post", "b64", "redirect"), ("post", "b64", "elsewhere"),
+                    ("redirect", "deflate", "absent"), ("redirect", "deflate", "post"), ("redirect", "deflate", "elsewhere"),
+                    ("artifact", "b64", "absent"), ("artifact", "b64", "post"),
+                    ("soap", "soap", "post"), ("paos", "soap", "post")]
+RARE_DELIVERIES = [("artifact", "b64", "elsewhere"), ("artifact", "b64", "redirect"), ("soap", "soap", "absent"),
+                   ("soap", "soap", "elsewhere"), ("paos", "soap", "absent")]   # only in the random mixtures
 IRT = [None, "req-1", "req-2", "unknown-9"]
 SCD = [("nodata",), ("data", None), ("data", "req-1"), ("data", "req-2"), ("data", "unknown-9")]
 SUCCESS = render.STATUS_SUCCESS
@@ -61,8 +85,8 @@ def regenerate_tables(ctx):
 
 
 def mk(irt="req-1", scs=(("data", "req-1"),), allow=False, out="one", top=SUCCESS, second=None, version="2.0",
-       n_assert=1, n_authn=1, subject=True, tag=""):
-    return {"irt": irt, "scs": [list(s) for s in scs], "allow": allow, "out": out, "top": top, "second": second,
+       n_assert=1, n_authn=1, subject=True, tag="", delivery=FULL_DELIVERIES[0]):
+    return {"via": delivery[0], "enc": delivery[1], "dest": delivery[2], "irt": irt, "scs": [list(s) for s in scs], "allow": allow, "out": out, "top": top, "second": second,
             "version": version, "n_assert": n_assert, "n_authn": n_authn, "subject": subject, "tag": tag}
 
 
@@ -80,37 +104,54 @@ def generate(ctx):
     rng = ctx.rng
     cases = []
     sc_shapes = [()] + [(a,) for a in SCD] + [(a, b) for a in SCD for b in SCD]
-    for irt in IRT:
-        for scs in sc_shapes:
-            for allow in (False, True):
-                for out in OUTS:
-                    cases.append(mk(irt=irt, scs=scs, allow=allow, out=out, tag="corr"))
+    for dl in FULL_DELIVERIES:
+        for irt in IRT:
+            for scs in sc_shapes:
+                for allow in (False, True):
+                    for out in ("empty", "one", "many"):
+                        cases.append(mk(irt=irt, scs=scs, allow=allow, out=out, tag="corr", delivery=dl))
+    few_shapes = [()] + [(a,) for a in SCD] + [(("data", "req-1"), ("data", "req-2")), (("nodata",), ("data", "unknown-9"))]
+    for dl in OTHER_DELIVERIES:
+        for irt in IRT:
+            for scs in few_shapes:
+                for allow in (False, True):
+                    for out in ("none", "many"):
+                        cases.append(mk(irt=irt, scs=scs, allow=allow, out=out, tag="delivery", delivery=dl))
+    all_dl = FULL_DELIVERIES + OTHER_DELIVERIES + RARE_DELIVERIES
+    one_per_binding = FULL_DELIVERIES + [("artifact", "b64", "absent"), ("soap", "soap", "post"), ("paos", "soap", "post")]
     tops = ["urn:oasis:names:tc:SAML:2.0:status:Responder", "urn:oasis:names:tc:SAML:2.0:status:Requester",
             "urn:oasis:names:tc:SAML:2.0:status:VersionMismatch"]
-    for top in tops + [SUCCESS]:
-        for second in status_codes():
-            cases.append(mk(top=top, second=second, tag="status"))
-            if top != SUCCESS:
-                cases.append(mk(top=top, second=second, n_assert=0, tag="status"))
-    for v in ["2.0", "1.1", "2.1", "3.0", "1.0", "0.9", "10.0"]:
-        for top in (SUCCESS, tops[0]):
-            cases.append(mk(version=v, top=top, second=None if top == SUCCESS else status_codes()[1], tag="version"))
-    for n_assert in (0, 1, 2):
-        for n_authn in (0, 1, 2):
-            for subject in (False, True):
-                for allow in (False, True):
-                    cases.append(mk(n_assert=n_assert, n_authn=n_authn, subject=subject, allow=allow, tag="shape"))
+    for dl in FULL_DELIVERIES + [("soap", "soap", "post")]:
+        for top in tops + [SUCCESS]:
+            for second in status_codes():
+                cases.append(mk(top=top, second=second, tag="status", delivery=dl))
+                if top != SUCCESS and dl[0] == "post":
+                    cases.append(mk(top=top, second=second, n_assert=0, tag="status", delivery=dl))
+    for dl in one_per_binding:
+        for v in ["2.0", "1.1", "2.1", "3.0", "1.0", "0.9", "10.0"]:
+            for top in (SUCCESS, tops[0]):
+                cases.append(mk(version=v, top=top, second=None if top == SUCCESS else status_codes()[1], tag="version",
+                                delivery=dl))
+    for dl in one_per_binding[:4]:
+        for n_assert in (0, 1, 2):
+            for n_authn in (0, 1, 2):
+                for subject in (False, True):
+                    for allow in (False, True):
+                        cases.append(mk(n_assert=n_assert, n_authn=n_authn, subject=subject, allow=allow, tag="shape",
+                                        delivery=dl))
     for _ in range(3000 if ctx.thorough else 500):
         cases.append(mk(irt=rng.choice(IRT), scs=rng.choice(sc_shapes), allow=rng.random() < 0.4,
                         out=rng.choice(list(OUTS)), top=rng.choice([SUCCESS, SUCCESS] + tops),
                         second=rng.choice(status_codes()), version=rng.choice(["2.0", "2.0", "2.0", "1.1", "2.1", "3.0"]),
                         n_assert=rng.choice([1, 1, 1, 0, 2]), n_authn=rng.choice([1, 1, 1, 0, 2]),
-                        subject=rng.random() < 0.85, tag="random"))
+                        subject=rng.random() < 0.85, tag="random",
+                        delivery=rng.choice(FULL_DELIVERIES * 4 + all_dl)))
     return cases
 
 
 def render_case(case):
     assertions = []
+    recipient = world.SP_ACS_REDIRECT if case["via"] == "redirect" else world.SP_ACS_POST
     for k in range(case["n_assert"]):
         a = spaccept.good_assertion(id="a-%d" % k)
         a["authn_statements"] = [{"authn_instant": env.iso(spaccept.NOW), "session_index": "s-%d" % j}
@@ -123,7 +164,7 @@ def render_case(case):
                 if sc[0] == "nodata":
                     confs.append({"method": render.SCM_BEARER, "data": None})
                 else:
-                    d = {"recipient": world.SP_ACS_POST, "not_on_or_after": env.iso(spaccept.NOW + 300)}
+                    d = {"recipient": recipient, "not_on_or_after": env.iso(spaccept.NOW + 300)}
                     if sc[1] is not None:
                         d["in_response_to"] = sc[1]
                     confs.append({"method": render.SCM_BEARER, "data": d})
@@ -134,13 +175,19 @@ def render_case(case):
         del r["in_response_to"]
     else:
         r["in_response_to"] = case["irt"]
+    if DESTS[case["dest"]] is None:
+        del r["destination"]
+    else:
+        r["destination"] = DESTS[case["dest"]]
     return spaccept.build(r, assertions, sign_response="idp")
 
 
 def observe(case):
     sp = spaccept.get_sp({"sp_allow_unsolicited": True} if case["allow"] else {})
     xml = render_case(case)
-    o = spaccept.observe(sp, xml, world.BINDING_HTTP_POST, dict(OUTS[case["out"]]))
+    out = OUTS[case["out"]]
+    o = spaccept.observe(sp, xml, BINDINGS[case["via"]], None if out is None else dict(out),
+                         encoded=ENCODERS[case["enc"]](xml))
     status_err = None
     if o["exc"] and "StatusError" in (o.get("exc_mro") or []):
         status_err = o["exc"]
@@ -159,8 +206,9 @@ def coq_case(case, obs):
         scs.append(Raw("NoData") if sc[0] == "nodata" else Raw("(Data %s)" % cq_opt(sc[1])))
     a = "{| n_authn := %d%%nat; subject := %s |}" % (case["n_authn"], ("(Some %s)" % cq(scs)) if case["subject"] else "None")
     maj, mi = case["version"].split(".")
-    return "C06.Corr.mk %s %s %s (%d%%nat, %d%%nat) %s %s %s %s" % (
-        cq(bool(case["allow"])), cq([(k, v2) for k, v2 in OUTS[case["out"]]]), cq_opt(case["irt"]), int(maj), int(mi),
+    return "C06.Corr.mk %s %s %s %s %s (%d%%nat, %d%%nat) %s %s %s %s" % (
+        COQ_BINDING[case["via"]], COQ_DEST[case["dest"]],
+        cq(bool(case["allow"])), cq([(k, v2) for k, v2 in (OUTS[case["out"]] or [])]), cq_opt(case["irt"]), int(maj), int(mi),
         cq(case["top"]), cq_opt(case["second"]), "[" + "; ".join([a] * case["n_assert"]) + "]", v)
 
 
@@ -174,9 +222,11 @@ def nontrivial(case, obs):
 
 
 def histogram(cases, observed):
-    h = {"by_tag": {}, "identity": 0, "status_error": 0, "other_reject": 0, "exceptions": {}}
+    h = {"by_tag": {}, "by_delivery": {}, "identity": 0, "status_error": 0, "other_reject": 0, "exceptions": {}}
     for c, o in zip(cases, observed):
         h["by_tag"][c["tag"]] = h["by_tag"].get(c["tag"], 0) + 1
+        dk = "%s/%s/dest=%s" % (c["via"], c["enc"], c["dest"])
+        h["by_delivery"][dk] = h["by_delivery"].get(dk, 0) + 1
         if o["identity"]:
             h["identity"] += 1
         elif o["status_err"]:
